@@ -426,7 +426,59 @@ struct CliWorldsReplay {
     tree: vsim::clisim::types::Tree,
     world_a: Inv,
     world_b: Inv,
+    /// "worlds": world_a vs world_b on the same tree; "batch-vs-singles": world_a's file list in
+    /// one process vs one process per file (world_b unused)
+    #[serde(default)]
+    mode: String,
     message: String,
+}
+
+/// The same files formatted by one CLI process (a list) and by one process per file, in the same
+/// order: stdout (concatenated) and the final tree must be identical, and the batch must fail
+/// iff one of the single runs fails. ("interleaved in any order with formatting of other
+/// documents in the same process ... byte-identical results", at the level of the CLI.)
+fn cli_batch_vs_singles(env: &vsim::clisim::run::Env, tree: &vsim::clisim::types::Tree, a: &Inv) -> Result<Option<String>, String> {
+    let Shape::Files { mode, paths } = &a.shape else { return Ok(None) };
+    vsim::clisim::world::materialise(&env.root(), tree).map_err(|e| e.to_string())?;
+    let batch = vsim::clisim::run::run_inv(env, a).map_err(|e| e.to_string())?;
+    let t_batch = vsim::clisim::world::snapshot_tree(&vsim::clisim::world::snapshot(&env.root()).map_err(|e| e.to_string())?);
+    vsim::clisim::world::materialise(&env.root(), tree).map_err(|e| e.to_string())?;
+    let mut so: Vec<u8> = Vec::new();
+    let mut any_fail = false;
+    for p in paths {
+        let mut one = a.clone();
+        one.shape = Shape::Files { mode: *mode, paths: vec![p.clone()] };
+        let o = vsim::clisim::run::run_inv(env, &one).map_err(|e| e.to_string())?;
+        if o.signal.is_some() {
+            return Ok(None);
+        }
+        so.extend_from_slice(&o.stdout);
+        any_fail |= o.exit != Some(0);
+    }
+    let t_single = vsim::clisim::world::snapshot_tree(&vsim::clisim::world::snapshot(&env.root()).map_err(|e| e.to_string())?);
+    if batch.signal.is_some() {
+        return Ok(None);
+    }
+    if *mode == Mode::Stdout && batch.stdout != so {
+        let d = vsim::util::first_diff(&batch.stdout, &so);
+        return Ok(Some(format!("stdout of one process formatting {} files differs from the concatenated stdout of one process per file: first difference at byte {} (batch {:?}, singles {:?})", paths.len(), d, vsim::util::excerpt(&batch.stdout[d.min(batch.stdout.len())..], 40), vsim::util::excerpt(&so[d.min(so.len())..], 40))));
+    }
+    if t_batch != t_single {
+        let k = t_batch.iter().find(|(k, v)| t_single.get(*k) != Some(*v)).map(|(k, _)| k.clone()).or_else(|| t_single.keys().find(|k| !t_batch.contains_key(*k)).cloned()).unwrap_or_default();
+        return Ok(Some(format!("the tree after one process formatting {} files in place differs from the tree after one process per file (first differing path {:?})", paths.len(), k)));
+    }
+    if *mode == Mode::Inplace && (batch.exit != Some(0)) != any_fail {
+        return Ok(Some(format!("one process for {} files exits {:?}, but {} of the single-file processes failed", paths.len(), batch.exit, if any_fail { "at least one" } else { "none" })));
+    }
+    Ok(None)
+}
+
+fn cli_replay_differs(env: &vsim::clisim::run::Env, r: &CliWorldsReplay) -> Result<Option<String>, String> {
+    if r.mode == "batch-vs-singles" {
+        cli_batch_vs_singles(env, &r.tree, &r.world_a)
+    } else {
+        cli_worlds_differ(env, &r.tree, &r.world_a, &r.world_b)
+    }
 }
 
 fn cli_env(worker: usize) -> vsim::clisim::run::Env {
@@ -464,6 +516,7 @@ fn cli_worlds_differ(env: &vsim::clisim::run::Env, tree: &vsim::clisim::types::T
 
 struct CliLane {
     pairs: u64,
+    batch_pairs: u64,
     faults_in_b: u64,
     found: Option<CliWorldsReplay>,
     errors: Vec<String>,
@@ -473,7 +526,7 @@ fn cli_worlds_lane(base: u64, n: u64, workers: usize) -> CliLane {
     use std::sync::atomic::{AtomicU64, Ordering};
     use std::sync::{Arc, Mutex};
     let next = Arc::new(AtomicU64::new(0));
-    let out = Arc::new(Mutex::new(CliLane { pairs: 0, faults_in_b: 0, found: None, errors: vec![] }));
+    let out = Arc::new(Mutex::new(CliLane { pairs: 0, batch_pairs: 0, faults_in_b: 0, found: None, errors: vec![] }));
     let fixtures = Arc::new(load_fixtures());
     let mut hs = Vec::new();
     for w in 0..workers {
@@ -489,6 +542,33 @@ fn cli_worlds_lane(base: u64, n: u64, workers: usize) -> CliLane {
                 }
                 let seed = mix(base ^ 0xC11, i);
                 let case: CliCase = vsim::clisim::workload::gen_case(seed, "benign", &params, &mut oracle);
+                // odd seeds: one process for a list vs one process per file
+                if i % 2 == 1 {
+                    let Some(Step::Inv(inv)) = case.steps.iter().find(|s| matches!(s, Step::Inv(Inv { shape: Shape::Files { mode: Mode::Stdout | Mode::Inplace, paths }, .. }) if paths.len() >= 2)).cloned() else { continue };
+                    let mut a = inv.clone();
+                    a.plan.clear();
+                    a.readdir = "sorted".into();
+                    a.shim_seed = 1;
+                    // an -i list must not name symlinks (see DESIGN 4.3)
+                    if let Shape::Files { mode: Mode::Inplace, paths } = &a.shape {
+                        if paths.iter().any(|p| vsim::clisim::types::resolve(&a.cwd, p).map(|k| matches!(case.tree.get(&k), Some(vsim::clisim::types::Node::Symlink(_)))).unwrap_or(true)) {
+                            continue;
+                        }
+                    }
+                    match cli_batch_vs_singles(&env, &case.tree, &a) {
+                        Ok(res) => {
+                            let mut o = out.lock().unwrap();
+                            o.batch_pairs += 1;
+                            if let Some(msg) = res {
+                                if o.found.is_none() {
+                                    o.found = Some(CliWorldsReplay { engine: "cliworlds".into(), property: "C17".into(), tree: case.tree.clone(), world_a: a.clone(), world_b: a, mode: "batch-vs-singles".into(), message: msg });
+                                }
+                            }
+                        }
+                        Err(e) => out.lock().unwrap().errors.push(format!("seed {}: {}", seed, e)),
+                    }
+                    continue;
+                }
                 let Some(Step::Inv(inv)) = case.steps.iter().find(|s| matches!(s, Step::Inv(Inv { shape: Shape::Files { mode: Mode::Stdout, .. } | Shape::Stdin { check: false }, .. }))).cloned() else { continue };
                 let mut a = inv.clone();
                 a.plan.clear();
@@ -508,7 +588,7 @@ fn cli_worlds_lane(base: u64, n: u64, workers: usize) -> CliLane {
                         o.faults_in_b += b.plan.len() as u64;
                         if let Some(msg) = res {
                             if o.found.is_none() {
-                                o.found = Some(CliWorldsReplay { engine: "cliworlds".into(), property: "C17".into(), tree: case.tree.clone(), world_a: a, world_b: b, message: msg });
+                                o.found = Some(CliWorldsReplay { engine: "cliworlds".into(), property: "C17".into(), tree: case.tree.clone(), world_a: a, world_b: b, mode: "worlds".into(), message: msg });
                             }
                         }
                     }
@@ -521,11 +601,11 @@ fn cli_worlds_lane(base: u64, n: u64, workers: usize) -> CliLane {
     for h in hs {
         let _ = h.join();
     }
-    let mut lane = std::mem::replace(&mut *out.lock().unwrap(), CliLane { pairs: 0, faults_in_b: 0, found: None, errors: vec![] });
+    let mut lane = std::mem::replace(&mut *out.lock().unwrap(), CliLane { pairs: 0, batch_pairs: 0, faults_in_b: 0, found: None, errors: vec![] });
     // minimise: drop world-B rules and environment, shorten the inputs line-wise
     if let Some(mut r) = lane.found.take() {
         let env = cli_env(9999);
-        let still = |r: &CliWorldsReplay| cli_worlds_differ(&env, &r.tree, &r.world_a, &r.world_b).ok().flatten();
+        let still = |r: &CliWorldsReplay| cli_replay_differs(&env, r).ok().flatten();
         let mut i = 0;
         while i < r.world_b.plan.len() {
             let mut c = r.clone();
@@ -536,6 +616,27 @@ fn cli_worlds_lane(base: u64, n: u64, workers: usize) -> CliLane {
         c.world_b.env.clear();
         if still(&c).is_some() {
             r = c;
+        }
+        // batch mode: drop paths from the list while at least two remain
+        loop {
+            let n = match &r.world_a.shape { Shape::Files { paths, .. } => paths.len(), _ => 0 };
+            let mut dropped = false;
+            if r.mode == "batch-vs-singles" && n > 2 {
+                for k in 0..n {
+                    let mut c = r.clone();
+                    if let Shape::Files { paths, .. } = &mut c.world_a.shape {
+                        paths.remove(k);
+                    }
+                    if still(&c).is_some() {
+                        r = c;
+                        dropped = true;
+                        break;
+                    }
+                }
+            }
+            if !dropped {
+                break;
+            }
         }
         // inputs: stdin, or every file of the tree
         let shrink_lines = |text: &[u8], put: &dyn Fn(&mut CliWorldsReplay, Vec<u8>), r: &mut CliWorldsReplay| {
@@ -548,7 +649,7 @@ fn cli_worlds_lane(base: u64, n: u64, workers: usize) -> CliLane {
                 cand.remove(k);
                 let mut c = r.clone();
                 put(&mut c, cand.concat());
-                if cli_worlds_differ(&env, &c.tree, &c.world_a, &c.world_b).ok().flatten().is_some() {
+                if cli_replay_differs(&env, &c).ok().flatten().is_some() {
                     lines = cand;
                     *r = c;
                 } else {
@@ -587,6 +688,75 @@ fn cli_worlds_lane(base: u64, n: u64, workers: usize) -> CliLane {
     let scratch = if Path::new("/dev/shm").is_dir() { PathBuf::from("/dev/shm") } else { std::env::temp_dir() };
     let _ = std::fs::remove_dir(scratch.join(format!("typstyle-verif-{:07}", std::process::id())));
     lane
+}
+
+
+// ------------------------------------------------------------------ lane B4: a long-lived process
+// One process, one thread, very many calls on tiny documents: every result must equal the first
+// result for the same (call, text) - i.e. nothing accumulates over the life of an embedder.
+#[derive(Serialize, Deserialize, Clone, Debug)]
+struct SoakResult {
+    calls: u64,
+    /// (index of the failing call, description)
+    failure: Option<(u64, String)>,
+}
+
+#[derive(Serialize, Deserialize, Clone, Debug)]
+struct SoakReplay {
+    engine: String,
+    property: String,
+    calls: u64,
+    failing_call: u64,
+    message: String,
+}
+
+fn soak_call(k: u64) -> (String, vsim::coresim::Call) {
+    const DOCS: &[&str] = &["#let x = 1\n", "#f(1,2)\n", "= T\n", "#import \"m.typ\": b, a\n", "$x$\n", "#table(columns: 2, [a], [b])\n", "#let y=(1,\n2)\n", "text\n"];
+    let text = DOCS[(k % DOCS.len() as u64) as usize].to_string();
+    let cfg = vsim::oracle::Cfg { column: [80usize, 20, 120][(k / 8 % 3) as usize], tab: 2, reorder: k % 5 == 0 };
+    let op = match k % 10 {
+        0..=5 => Op::Content,
+        6..=8 => Op::Source,
+        _ => Op::Width,
+    };
+    (text, vsim::coresim::Call { op, doc: 0, cfg, feed_prev: false })
+}
+
+fn cmd_soak(args: &[String]) -> i32 {
+    vsim::oracle::silence_panics();
+    let n: u64 = arg_value(args, "--calls").and_then(|x| x.parse().ok()).unwrap_or(100_000);
+    let mut first: BTreeMap<u64, vsim::coresim::Res> = BTreeMap::new();
+    let mut res = SoakResult { calls: 0, failure: None };
+    for k in 0..n {
+        let (text, call) = soak_call(k);
+        let key = vsim::rng::fnv(format!("{}|{}", serde_json::to_string(&call).unwrap(), text).as_bytes());
+        let r = std::panic::catch_unwind(|| vsim::coresim::exec::exec_call(&call, &text, None, None)).unwrap_or(vsim::coresim::Res::Panic);
+        res.calls += 1;
+        match first.get(&key) {
+            None => {
+                first.insert(key, r);
+            }
+            Some(f) if *f != r => {
+                res.failure = Some((k, format!("call #{} ({:?} on {:?}, {:?}) returns something else than the first call with the same arguments in this process: {}", k, call.op, text, call.cfg, vsim::coresim::shrink::diff_msg(&r, f))));
+                break;
+            }
+            _ => {}
+        }
+    }
+    println!("{}", serde_json::to_string(&res).unwrap());
+    0
+}
+
+fn run_soak(calls: u64) -> Option<SoakResult> {
+    let exe = std::env::current_exe().ok()?;
+    let out = Command::new(exe)
+        .args(["soak", "--calls", &calls.to_string()])
+        .env("LD_PRELOAD", shim_path())
+        .env("VSIM_SEED", "1")
+        .stderr(Stdio::null())
+        .output()
+        .ok()?;
+    serde_json::from_slice::<SoakResult>(&out.stdout).ok()
 }
 
 // ------------------------------------------------------------------ lane B3: Miri
@@ -724,12 +894,35 @@ fn cmd_run(args: &[String]) -> i32 {
         let _ = std::fs::write(&path, serde_json::to_string_pretty(r).unwrap());
         violations += 1;
         println!("VIOLATION property=C17 replay={}", path.display());
-        println!("  invariant V17.6-cli-worlds: {}", r.message);
+        println!("  invariant V17.6-cli-worlds ({}): {}", r.mode, r.message);
         println!("  argv: typstyle {}", r.world_b.argv("{ROOT}").join(" "));
         reported.push(json!({"invariant": "V17.6-cli-worlds", "message": r.message, "replay": path}));
     }
-    let cli_json = json!({"process_pairs_compared": cl.pairs, "benign_fault_rules_in_world_B": cl.faults_in_b, "errors": cl.errors.iter().take(5).collect::<Vec<_>>(),
+    let cli_json = json!({"process_pairs_compared": cl.pairs, "batch_vs_one_process_per_file_compared": cl.batch_pairs, "benign_fault_rules_in_world_B": cl.faults_in_b, "errors": cl.errors.iter().take(5).collect::<Vec<_>>(),
         "note": "same tree, same argv; world A: no fault, sorted directories, empty environment; world B: short reads/writes, EINTR, clock jumps, other randomness, environment variables; stdout bytes and exit status must be identical"});
+
+    // ---- lane B4: a long-lived single-threaded process
+    let soak_calls: u64 = arg_value(args, "--soak-calls").and_then(|x| x.parse().ok()).unwrap_or(if tier == "thorough" { 2_000_000 } else { 150_000 });
+    let mut soak_json = json!({"run": false});
+    if soak_calls > 0 {
+        match run_soak(soak_calls) {
+            Some(r) => {
+                if let Some((k, msg)) = &r.failure {
+                    let dir = verif_dir().join("replays");
+                    let _ = std::fs::create_dir_all(&dir);
+                    let path = dir.join(format!("C17-V17.7-soak-call{}.json", k));
+                    let rp = SoakReplay { engine: "soak".into(), property: "C17".into(), calls: k + 1, failing_call: *k, message: msg.clone() };
+                    let _ = std::fs::write(&path, serde_json::to_string_pretty(&rp).unwrap());
+                    violations += 1;
+                    println!("VIOLATION property=C17 replay={}", path.display());
+                    println!("  invariant V17.7-soak: {}", msg);
+                    reported.push(json!({"invariant": "V17.7-soak", "message": msg, "replay": path}));
+                }
+                soak_json = json!({"run": true, "calls_in_one_process": r.calls, "failure": r.failure, "note": "single thread, tiny documents, 8 texts x 3 widths x 3 entry points; every result compared with the first result for the same arguments"});
+            }
+            None => eprintln!("WARNING: the soak lane produced no result"),
+        }
+    }
 
     // ---- lane B3 (thorough tier, or on request): Miri many-seeds
     // quick: only the scenario with concurrent calls under different configurations (the one place
@@ -815,6 +1008,7 @@ fn cmd_run(args: &[String]) -> i32 {
             "reported": reported,
             "lane_B2_cli_separate_processes": cli_json,
             "lane_B3_miri": miri_json,
+            "lane_B4_long_lived_process": soak_json,
             "harness_errors": st.errors.iter().chain(b.worker_failures.iter()).take(10).collect::<Vec<_>>(),
             "real_vs_stub": {
                 "real": ["typstyle-core and typst-syntax from /repo (built with --cfg typstyle_verif)", "OS threads, thread-locals, allocator, atomics"],
@@ -864,10 +1058,30 @@ fn cmd_replay(args: &[String]) -> i32 {
         eprintln!("cannot read {path}");
         return 2;
     };
+    if let Ok(sr) = serde_json::from_str::<SoakReplay>(&text) {
+        if sr.engine == "soak" {
+            return match run_soak(sr.calls) {
+                Some(SoakResult { failure: Some((k, msg)), .. }) => {
+                    println!("VIOLATION property=C17 replay={}", path);
+                    println!("  invariant V17.7-soak: {}", msg);
+                    println!("  failing call #{} (recorded #{}): {}", k, sr.failing_call, if k == sr.failing_call { "exact replay" } else { "DIFFERS" });
+                    1
+                }
+                Some(_) => {
+                    println!("replay: the recorded violation (V17.7-soak) did not reproduce on this tree");
+                    0
+                }
+                None => {
+                    eprintln!("HARNESS-ERROR: the soak process did not answer");
+                    2
+                }
+            };
+        }
+    }
     if let Ok(cr) = serde_json::from_str::<CliWorldsReplay>(&text) {
         if cr.engine == "cliworlds" {
             let env = cli_env(7777);
-            let r = cli_worlds_differ(&env, &cr.tree, &cr.world_a, &cr.world_b);
+            let r = cli_replay_differs(&env, &cr);
             let _ = std::fs::remove_dir_all(&env.base);
             return match r {
                 Ok(Some(msg)) => {
@@ -1015,6 +1229,7 @@ fn main() {
         Some("replay") => cmd_replay(&args[1..]),
         Some("selftest") => cmd_selftest(&args[1..]),
         Some("digests") => cmd_digests(&args[1..]),
+        Some("soak") => cmd_soak(&args[1..]),
         _ => {
             eprintln!("usage: coresim run|replay|selftest ...");
             2
